@@ -684,6 +684,9 @@ class MDMFDirectoryURIVerifier(_DirectoryBaseURI):
     def get_readonly(self):
         return self
 
+    def get_verify_cap(self):
+        return self
+
 
 @implementer(IURI, IVerifierURI)
 class DirectoryURIVerifier(_DirectoryBaseURI):
@@ -707,6 +710,9 @@ class DirectoryURIVerifier(_DirectoryBaseURI):
         return True
 
     def get_readonly(self):
+        return self
+
+    def get_verify_cap(self):
         return self
 
 
